@@ -611,3 +611,100 @@ func init() {
 		return mkStr(sb.String())
 	}
 }
+
+func init() {
+	// vMapPutIf(m, key, val, present): m[key] = val exists only if present.
+	apiIntrinsics["vMapPutIf"] = func(fr *frame, args []value) value {
+		m := args[0].(iface).v.(*smap)
+		key := args[1].(iface).v
+		val := args[2]
+		if mt, ok := args[0].(iface).t.Underlying().(*types.Map); ok {
+			if _, isIface := mt.Elem().Underlying().(*types.Interface); !isIface {
+				val = args[2].(iface).v
+			}
+		}
+		p := args[3].(*Term)
+		if p.isFalse() {
+			return nil
+		}
+		m.insert(fr.r, key, val)
+		if !p.isTrue() {
+			m.entries[len(m.entries)-1].present = p
+		}
+		return nil
+	}
+	// vJSONFields(v): "GoName|jsonName|omitempty" for each exported field of
+	// the struct (or pointer to struct) v, read from the loaded source's tags.
+	apiIntrinsics["vJSONFields"] = func(fr *frame, args []value) value {
+		t := args[0].(iface).t
+		if p, ok := t.Underlying().(*types.Pointer); ok {
+			t = p.Elem()
+		}
+		st, ok := t.Underlying().(*types.Struct)
+		if !ok {
+			panic(engineError{"vJSONFields: not a struct"})
+		}
+		var out []value
+		for i := 0; i < st.NumFields(); i++ {
+			f := st.Field(i)
+			if !f.Exported() {
+				continue
+			}
+			name, omit := f.Name(), false
+			tag := reflectTag(st.Tag(i), "json")
+			if tag == "-" {
+				continue
+			}
+			parts := strings.Split(tag, ",")
+			if parts[0] != "" {
+				name = parts[0]
+			}
+			for _, o := range parts[1:] {
+				if o == "omitempty" {
+					omit = true
+				}
+			}
+			out = append(out, mkStr(fmt.Sprintf("%s|%s|%v", f.Name(), name, omit)))
+		}
+		return out
+	}
+}
+
+func reflectTag(tag, key string) string {
+	// minimal reflect.StructTag.Get
+	for tag != "" {
+		i := 0
+		for i < len(tag) && tag[i] == ' ' {
+			i++
+		}
+		tag = tag[i:]
+		if tag == "" {
+			break
+		}
+		i = 0
+		for i < len(tag) && tag[i] > ' ' && tag[i] != ':' && tag[i] != '"' {
+			i++
+		}
+		if i == 0 || i+1 >= len(tag) || tag[i] != ':' || tag[i+1] != '"' {
+			break
+		}
+		name := tag[:i]
+		tag = tag[i+1:]
+		i = 1
+		for i < len(tag) && tag[i] != '"' {
+			if tag[i] == '\\' {
+				i++
+			}
+			i++
+		}
+		if i >= len(tag) {
+			break
+		}
+		val := tag[1:i]
+		tag = tag[i+1:]
+		if name == key {
+			return val
+		}
+	}
+	return ""
+}
